@@ -969,7 +969,7 @@ structure WF (rt : Runtime) : Prop where
   globalsNodup : (rt.globalsMeta.map (·.name)).Nodup
   progsNodup : (rt.programs.map (·.name)).Nodup
   varsNodup : ∀ p, p ∈ rt.programs → (p.vars.map (·.name)).Nodup
-  disjoint : ∀ m p, m ∈ rt.globalsMeta → p ∈ rt.programs → m.name ≠ p.name
+  disjoint : ∀ m, m ∈ rt.globalsMeta → ∀ p, p ∈ rt.programs → m.name ≠ p.name
 
 /-- Value of variable `v` of the LIVE instance of program `p` (what `get_output` shows). -/
 def Runtime.progVar (rt : Runtime) (p v : Nat) : Option Val :=
@@ -1048,9 +1048,54 @@ theorem restart_getGlobal (mode : Mode) (rt rt' : Runtime) (hwf : WF rt)
     have : m.name ∉ rt.programs.map (·.name) := by
       intro hc
       obtain ⟨p, hp, hpn⟩ := List.mem_map.1 hc
-      exact hwf.disjoint m p hm hp hpn.symm
+      exact hwf.disjoint m hm p hp hpn.symm
     simp only [Storage.getGlobal, (restoreProgVars_frame _ s2).1]
     exact t2 m.name this
+
+/-- The fifth loop only writes into instances that some triple's program global points at. -/
+theorem restoreProgVars_getInstance_other (j : Nat) (l : List (Nat × Nat × Val)) :
+    ∀ (s : Storage), (∀ t id, t ∈ l → s.getGlobal t.1 = some (.inst id) → id ≠ j) →
+      (restoreProgVars s l).getInstance j = s.getInstance j := by
+  induction l with
+  | nil => intro s _; rfl
+  | cons t rest ih =>
+    intro s hall
+    obtain ⟨prog, var, x⟩ := t
+    simp only [restoreProgVars]
+    split
+    · rename_i id hg
+      rw [ih (s.setInstVar id var x) (fun t id' ht hgt => hall t id' (by simp [ht]) (by simpa using hgt))]
+      rw [getInstance_setInstVar]
+      have : j ≠ id := fun e => hall (prog, var, x) id (by simp) hg e.symm
+      simp [this]
+    · exact ih s (fun t id' ht hgt => hall t id' (by simp [ht]) hgt)
+
+/-- No restart touches an instance that existed before it (the old program instances stay in the
+table, a retained FB-typed global keeps its whole instance). -/
+theorem restart_old_instances (mode : Mode) (rt rt' : Runtime) (hwf : WF rt)
+    (h : restart mode rt = .ok rt') (id : Nat) (hid : id < rt.storage.nextId) :
+    rt'.storage.getInstance id = rt.storage.getInstance id := by
+  obtain ⟨s1, s2, h1, h2, h3⟩ := restart_decompose mode rt rt' h
+  obtain ⟨i1, _, _⟩ := resetGlobals_spec rt.fbs _ _ rt.globalsMeta rt.storage s1 h1 hwf.globalsNodup
+  obtain ⟨i2, _, t3⟩ := recreatePrograms_spec rt.fbs rt.programs s1 s2 h2 hwf.progsNodup hwf.varsNodup
+  rw [h3]
+  show (restoreProgVars s2 (retainedPvOf mode rt)).getInstance id = _
+  rw [restoreProgVars_getInstance_other id _ s2, i2.old id (by have := i1.next; omega), i1.old id hid]
+  intro t id' ht hg
+  unfold retainedPvOf at ht
+  cases hw : mode.isWarm with
+  | false => simp [hw] at ht
+  | true =>
+    simp only [hw, if_true] at ht
+    obtain ⟨q, hq, oid, _, hmem⟩ := (mem_collectRetainedProgVars _ _ _).1 ht
+    obtain ⟨hq1, _⟩ := (mem_collectProgVars _ _ _ _ _).1 hmem
+    obtain ⟨nid, hpost⟩ := t3 q hq
+    rw [hq1, hpost.1] at hg
+    injection hg with hg; injection hg with hg
+    subst hg
+    have := hpost.2.1
+    have := i1.next
+    omega
 
 /-! ### retain snapshots -/
 
@@ -1271,11 +1316,19 @@ def expP (fbs : List FbDef) (d : VarDef) (member : Option Nat) : Option Val :=
     | some fb => (aget (membersMap [] fb.members) k).map obsVal
     | none => none
 
+def GInit.plainOk : GInit → Bool
+  | .value v => !v.isInst
+  | .fb _ => true
+
+def VInit.plainOk : VInit → Bool
+  | .plain v => !v.isInst
+  | _ => true
+
 /-- Initial values are values, not instance handles (the compiler never produces such a
 declaration). -/
 structure PlainInits (metas : List GlobalMeta) (progs : List ProgDef) : Prop where
-  globals : ∀ m v, m ∈ metas → m.init = .value v → v.isInst = false
-  vars : ∀ p d v, p ∈ progs → d ∈ p.vars → d.init = .plain v → v.isInst = false
+  globals : ∀ m, m ∈ metas → m.init.plainOk = true
+  vars : ∀ p, p ∈ progs → ∀ d, d ∈ p.vars → d.init.plainOk = true
 
 /-- After the third and fourth loop (cold), every path shows what the declarations say —
 independently of the storage the loops started from. -/
@@ -1284,7 +1337,7 @@ theorem cold_paths (fbs : List FbDef) (metas : List GlobalMeta) (progs : List Pr
     (h1 : resetGlobals fbs false [] s0 metas = .ok s1) (h2 : recreatePrograms fbs s1 progs = .ok s2)
     (hg : (metas.map (·.name)).Nodup) (hp : (progs.map (·.name)).Nodup)
     (hv : ∀ p, p ∈ progs → (p.vars.map (·.name)).Nodup)
-    (hdis : ∀ m p, m ∈ metas → p ∈ progs → m.name ≠ p.name) (hpl : PlainInits metas progs) :
+    (hdis : ∀ m, m ∈ metas → ∀ p, p ∈ progs → m.name ≠ p.name) (hpl : PlainInits metas progs) :
     (∀ m member, m ∈ metas → readGP s2 m.name member = expG fbs m member) ∧
     (∀ p d member, p ∈ progs → d ∈ p.vars → d.init ≠ .ext →
       readPP s2 p.name d.name member = expP fbs d member) := by
@@ -1295,7 +1348,7 @@ theorem cold_paths (fbs : List FbDef) (metas : List GlobalMeta) (progs : List Pr
     have hnot : m.name ∉ progs.map (·.name) := by
       intro hc
       obtain ⟨p, hpp, hpn⟩ := List.mem_map.1 hc
-      exact hdis m p hm hpp hpn.symm
+      exact hdis m hm p hpp hpn.symm
     have hgl : s2.getGlobal m.name = s1.getGlobal m.name := t2 _ hnot
     have post := g3 m hm
     unfold GlobalPost at post
@@ -1310,7 +1363,7 @@ theorem cold_paths (fbs : List FbDef) (metas : List GlobalMeta) (progs : List Pr
       | none => simp
       | some k =>
         simp only
-        exact obs_member_of_not_inst s2 v k (hpl.globals m v hm hi)
+        exact obs_member_of_not_inst s2 v k (by have := hpl.globals m hm; simpa [hi, GInit.plainOk] using this)
     | fb ty =>
       simp only [hi] at post
       obtain ⟨j, fb, a1, a2, a3, a4, a5⟩ := post
@@ -1336,7 +1389,7 @@ theorem cold_paths (fbs : List FbDef) (metas : List GlobalMeta) (progs : List Pr
       | none => simp
       | some k =>
         simp only
-        exact obs_member_of_not_inst s2 v k (hpl.vars p d v hpp hd hi)
+        exact obs_member_of_not_inst s2 v k (by have := hpl.vars p hpp d hd; simpa [hi, VInit.plainOk] using this)
     | ext => exact absurd hi hne
     | fb ty =>
       simp only [hi] at post
@@ -1597,6 +1650,28 @@ def src5 : Source :=
 
 def fresh5 : Option (Option Int) := (build src5).map fun rt => num? (rt.progVar 0 1)
 def cold5 : Option (Option Int) := (build src5).map fun rt => num? ((restartD .cold rt).progVar 0 1)
+
+/-- Witness 6 (guards hold): SINGLE variable initially FALSE, a RETAIN global FB instance, a
+program with a RETAIN scalar, an unqualified scalar and an FB instance; no instance binding, no
+VAR_CONFIG value. -/
+def src6 : Source :=
+  { fbs := [fb4],
+    globals := [{ name := 10, retain := .unspecified, init := .value (.num 1 0) },
+                { name := 11, retain := .retain, init := .value (.num 3 5) },
+                { name := 12, retain := .retain, init := .fb 30 }],
+    tasks := [{ name := 20, interval := 0, single := some 10, priority := 1 }],
+    programs := [{ name := 0,
+                   vars := [plain 1 .retain (.num 3 7), plain 2 .unspecified (.num 3 1),
+                            { var := { name := 3, retain := .unspecified, init := .fb 30 } }],
+                   body := [.simple (.inc (l 1) 1), .simple (.inc (l 2) 1), .simple (.inc (g 11) 1),
+                            .simple (.tog (g 10)), .call .l 3 [(31, .num 3 2)]] }] }
+
+def fr6 : Runtime := (build src6).getD {}
+/-- two cycles later -/
+def rt6 : Runtime := cycN 2 fr6
+
+/-- witness 3 with a configured store, two cycles later -/
+def rt3s : Runtime := cycN 2 (setRetainStore ((build src3).getD {}) false)
 
 end W
 
